@@ -2,6 +2,8 @@
 ORDER (sender identity is overwritten before any routing), GUARD (no self-delivery unless reflect-to-self), ONCE (one delivery per session),
 UNIQUE-AGREE (literal-lookup fast path only for patterns classified unique, looked up unescaped).  DESIGN.md section 4 (C05)."""
 import re
+from msa import guards as G
+from msa import ip as IP
 from msa import pair as P
 from msa import ast as A
 from msa import cfg as C
@@ -95,20 +97,34 @@ def run(res, tier):
     # ------------------------------------------------------------------------------------------- ORDER
     res.rule('ORDER', 'in the client-to-client branch of the dispatcher the PR_NAME_SESSION field is overwritten with this session\'s id before any routing call', floor=3)
     f = fx.fn1(SRS + '::MessageReceivedFromGateway')
-    rep = []
-    for c in P.calls(f, r'^muscle::Message::ReplaceString$'):
+    SC = r'^muscle::StorageReflectSession::'
+
+    def is_rep(c):
+        if not (c.is_call() and re.search(r'^muscle::Message::ReplaceString$', c.get('q') or '')):
+            return False
         a = c.args()
-        if len(a) >= 3 and any((x.get('q') or '').endswith('::GetSessionIDString') and (x.receiver() is None or A.strip_casts(x.receiver())['k'] == 'CXXThisExpr') for x in a[2].walk() if x.is_call()):
-            rep.append(c)
-    routes = [c for c in P.calls(f, r'NodePathMatcher::DoTraversal$') if any(x.get('n') == 'PassMessageCallbackFunc' for x in c.args()[0].walk())]
-    routes += [c for c in P.calls(f, r'^muscle::DumbReflectSession::MessageReceivedFromGateway$')]
-    if len(routes) < 3:
-        raise AnalysisBroken('ORDER: expected 3 routing calls in the dispatcher, found %d' % len(routes))
-    for r in routes:
+        return len(a) >= 3 and any((x.get('q') or '').endswith('::GetSessionIDString') and (x.receiver() is None or A.strip_casts(x.receiver())['k'] == 'CXXThisExpr') for x in a[2].walk() if x.is_call())
+
+    def is_route(c):
+        if not c.is_call():
+            return False
+        q = c.get('q') or ''
+        if re.search(r'NodePathMatcher::DoTraversal$', q):
+            return bool(c.args()) and any(x.get('n') == 'PassMessageCallbackFunc' for x in c.args()[0].walk())
+        return bool(re.search(r'^muscle::DumbReflectSession::MessageReceivedFromGateway$', q))
+    # the overwrite and the routing calls may sit in the dispatcher itself or in private helpers it calls (msa/ip.py): what is required is their order as seen from the dispatcher
+    rep = IP.must_sites(fx, f, is_rep, SC)
+    routes = IP.may_sites(fx, f, is_route, SC)
+    leaves = [leaf for (_, ls) in routes for leaf in ls]
+    if len(leaves) < 3:
+        raise AnalysisBroken('ORDER: expected 3 routing calls in the dispatcher (or its helpers), found %d' % len(leaves))
+    for (r, ls) in routes:
         ok = bool(rep) and P.must_precede(f, rep, r)
-        res.ob('ORDER', f.where(r), 'routing call `%s` is preceded by ReplaceString(…, PR_NAME_SESSION, GetSessionIDString())' % r.text(50), ok,
-               how='overwrite at line %s dominates' % (rep[0].get('l') if rep else '?'), function=f.q, key='ORDER|%s|%s' % (f.q, (r.get('q') or '').split('::')[-1] + ':' + str(routes.index(r))),
-               message='the dispatcher can route a client Message before overwriting its PR_NAME_SESSION field: a client can forge the sender identity seen by other clients')
+        for (g_, leaf) in ls:
+            res.ob('ORDER', g_.where(leaf), 'routing call `%s` is preceded by ReplaceString(…, PR_NAME_SESSION, GetSessionIDString())' % leaf.text(50), ok,
+                   how='overwrite at line %s dominates%s' % (rep[0].get('l') if rep else '?', '' if g_ is f else ' the call of %s at line %s' % (g_.q.split('::')[-1], r.get('l'))), function=f.q,
+                   key='ORDER|%s|%s' % (f.q, (leaf.get('q') or '').split('::')[-1] + ':' + str(leaves.index((g_, leaf)))),
+                   message='the dispatcher can route a client Message before overwriting its PR_NAME_SESSION field: a client can forge the sender identity seen by other clients')
     # ------------------------------------------------------------------------------------------- GUARD / ONCE
     res.rule('GUARD', 'a routed Message is handed to the session owning the matched node, and to the sender itself only under the reflect-to-self flag', floor=3)
     f = fx.fn1(SRS + '::PassMessageCallbackAux')
@@ -236,11 +252,18 @@ def run(res, tier):
     # ------------------------------------------------------------------------------------------- UNIQUE-AGREE
     res.rule('UNIQUE-AGREE', 'the literal-lookup fast path of the traversal is selected only when every matcher at this level is classified unique (or list of unique values) and it looks the child up by the unescaped pattern', floor=3)
     f = fx.fn1(SRS + '::NodePathMatcher::DoTraversalAux')
-    flagsets = [n for n in f.walk() if n['k'] == 'BinaryOperator' and n.get('op') == '=' and A.strip_casts(n['ch'][0]).get('n') == 'parsersHaveWildcards' and n['ch'][1].get('v') == 1]
     lookups = P.calls(f, r'::DoDirectChildLookup$')
+    # the "some matcher at this level has wildcards" flag: the bool local whose false value dominates the direct lookups and which is set to true somewhere (whatever it is called)
+    fd = None
+    flagsets = []
+    if lookups:
+        for (cn, t) in G.atoms_at(f, lookups[0]):
+            if cn['k'] == 'DeclRefExpr' and cn.get('d') is not None and not t and 'bool' in cn.type():
+                sets = [n for n in f.walk() if n['k'] == 'BinaryOperator' and n.get('op') == '=' and A.strip_casts(n['ch'][0]).get('d') == cn['d'] and n['ch'][1].get('v') == 1]
+                if sets:
+                    fd, flagsets = cn['d'], sets
     if not flagsets or len(lookups) < 2:
         raise AnalysisBroken('DoTraversalAux: wildcard flag assignment / direct lookups not found')
-    fd = A.strip_casts(flagsets[0]['ch'][0]).get('d')
     okg = True
     for l in lookups:
         gs = [(f.nodes[c], t) for (c, t) in C.guards_of_block(f, P.pos_of(f, l)[0])]
@@ -250,7 +273,7 @@ def run(res, tier):
            message='the literal child lookup is used although some matcher at this level has wildcards: nodes that match only by pattern are skipped')
     # the scan: from the declaration of the matcher pointer to leaving the if without setting the flag
     fs = flagsets[0]
-    vds = [v for v in f.walk() if v['k'] == 'VarDecl' and v.get('n') == 'nextMatcher' and C.dominates(f, v['i'], fs['i'])]
+    vds = [v for v in f.walk() if v['k'] == 'VarDecl' and re.search(r'StringMatcher \*$', v.type().strip()) and C.dominates(f, v['i'], fs['i'])]
     ok = False
     how = None
     if vds:
@@ -278,7 +301,7 @@ def run(res, tier):
                             if n.is_call() and (n.get('q') or '').endswith('::IsPatternListOfUniqueValues') and pol:
                                 uniq = True
                             # matcher queue absent: nothing to look up
-                            if n['k'] == 'DeclRefExpr' and n.get('n') == 'nextQueue' and not pol:
+                            if n['k'] == 'DeclRefExpr' and 'StringMatcherQueue' in n.type() and n.type().rstrip().endswith('*') and not pol:
                                 uniq = True
                         if not uniq:
                             ok = False
